@@ -9,6 +9,7 @@ import (
 	"sync"
 	"testing"
 	"testing/synctest"
+	"time"
 
 	sse "github.com/tmaxmax/go-sse"
 	"pgregory.net/rapid"
@@ -16,7 +17,7 @@ import (
 	"verif/harness/stats"
 )
 
-const ruleC13a = "sequential routing: rapid-generated operation lists over one Connection: SubscribeEvent(type in {\"\", a, b, message}), SubscribeMessages, SubscribeToAll, Unsubscribe(i) for ANY remover handed out so far (repeated and stale removers, also after the same type was re-subscribed), Feed(event of type in {\"\", a, b, message, z}); a drawn prefix runs before Connect, the rest while connected (the response body is fed by the harness inside a synctest bubble and every Feed is followed by quiescence). Model: set of live callbacks with their type; after each Feed the invocation log must have grown by exactly one record per live callback whose type equals the event's type or that subscribed to all, carrying that event, and by nothing else. Non-trivial: >= 2 callbacks on one type, an unsubscribe followed by an event of that type, and an operation after Connect."
+const ruleC13a = "sequential routing: rapid-generated operation lists over one Connection: SubscribeEvent(type in {\"\", a, b, message}), SubscribeMessages, SubscribeToAll, Unsubscribe(i) for ANY remover handed out so far (repeated and stale removers, also after the same type was re-subscribed), Feed(event of type in {\"\", a, b, message, z}); a drawn prefix runs before Connect, the rest while connected (the response body is fed by the harness inside a synctest bubble and every Feed is followed by quiescence). Model: set of live callbacks with their type; after each Feed the invocation log must have grown by exactly one record per live callback whose type equals the event's type or that subscribed to all, carrying that event, and by nothing else. One fed event may make the first callback that runs cancel the request context (that event must still reach every callback; later feeds are skipped or - half of the time - continue as already-buffered data with a one-directional oracle) or panic (recovered by the caller of Connect; every later Subscribe*/unsubscribe call must still return). Non-trivial: >= 2 callbacks on one type, an unsubscribe followed by an event of that type, and an operation after Connect."
 const ruleC13b = "concurrent pass (built with -race, real scheduler): 2..4 goroutines run generated subscribe/unsubscribe scripts while a feeder streams events through an io.Pipe without waiting; verdicts: the race detector (any DATA RACE with go-sse frames), and schedule-independent invariants from one mutex-ordered log with a permanent subscribe-to-all witness: only matching events, each at most once, in stream order, none after the remover returned, and every event whose witness record lies between a callback's subscribe-return and its remove-request. Non-trivial: >= 2 worker goroutines each performed >= 1 subscribe and >= 1 unsubscribe while >= 5 events were dispatched. Distinct: FNV-64 of the JSON of the case."
 
 var c13Types = []string{"", "a", "b", "message"}
@@ -34,6 +35,17 @@ type C13Case struct {
 	// runs cancels the request's context (what a consumer does when it has seen enough). That
 	// event must still reach every subscribed callback; later feeds are skipped.
 	CancelFeed int `json:"cancelfeed,omitempty"`
+	// FeedAfterCancel: feeds after that cancellation are NOT skipped: the body keeps delivering (data
+	// that was already buffered when the consumer cancelled). An implementation may stop dispatching
+	// once its context is done, so for these events only one direction is checked: nothing reaches a
+	// callback whose unsubscribe function has returned or that subscribed to another type, and
+	// nobody is called twice.
+	FeedAfterCancel bool `json:"feedaftercancel,omitempty"`
+	// PanicFeed > 0: during the dispatch of the PanicFeed-th fed event the first callback that runs
+	// panics (the consumer's bug; whoever called Connect recovers, as http.Server does for a
+	// handler). The connection is over then, but every Subscribe* call and every unsubscribe
+	// function must still return.
+	PanicFeed int `json:"panicfeed,omitempty"`
 }
 
 func genC13Ops(t *rapid.T, n int, feed bool) []C13Op {
@@ -66,9 +78,14 @@ func genC13(t *rapid.T) C13Case {
 	c.Connect = stats.Pick(t, n+1, "connect")
 	if stats.Pct(t, "cancelfeed") >= 80 {
 		c.CancelFeed = 1 + stats.Pick(t, 4, "cancelfeedn")
+		c.FeedAfterCancel = rapid.Bool().Draw(t, "feedaftercancel")
+	} else if stats.Pct(t, "panicfeed") >= 88 {
+		c.PanicFeed = 1 + stats.Pick(t, 4, "panicfeedn")
 	}
 	return c
 }
+
+var errConsumerPanic = fmt.Errorf("harness: the consumer's callback panics")
 
 type invocation struct {
 	cb   int
@@ -110,6 +127,7 @@ func checkC13(t *testing.T, c C13Case) (v *stats.Verdict) {
 			v.Failf("panic", "panic: %v", r)
 		}
 	}()
+	var afterPanic func()
 	synctest.Test(t, func(t *testing.T) {
 		body := &feedBody{ch: make(chan string)}
 		cl := &sse.Client{
@@ -125,6 +143,7 @@ func checkC13(t *testing.T, c C13Case) (v *stats.Verdict) {
 		conn := cl.NewConnection(req)
 		cancelNow := false // set while the event that triggers the cancellation is being fed
 		cancelled := false
+		panicNow, panicked := false, false
 
 		var log []invocation
 		type cbInfo struct {
@@ -142,9 +161,17 @@ func checkC13(t *testing.T, c C13Case) (v *stats.Verdict) {
 
 		connect := func() {
 			connected = true
-			go func() { done <- conn.Connect() }()
+			go func() {
+				defer func() {
+					if r := recover(); r != nil {
+						done <- fmt.Errorf("recovered from the consumer's panic: %v", r)
+					}
+				}()
+				done <- conn.Connect()
+			}()
 			synctest.Wait()
 		}
+	ops:
 		for i, op := range c.Ops {
 			if i == c.Connect {
 				connect()
@@ -164,6 +191,10 @@ func checkC13(t *testing.T, c C13Case) (v *stats.Verdict) {
 					if cancelNow && !cancelled {
 						cancelled = true
 						cancelCtx()
+					}
+					if panicNow && !panicked {
+						panicked = true
+						panic(errConsumerPanic)
 					}
 					log = append(log, invocation{id, e.Data, e.Type})
 				}
@@ -200,15 +231,31 @@ func checkC13(t *testing.T, c C13Case) (v *stats.Verdict) {
 				}
 				cbs[removerOf[k]].live = false
 			case "feed":
-				if !connected || cancelled {
-					continue // nothing is streaming yet / the consumer has cancelled
+				if !connected || panicked || (cancelled && !c.FeedAfterCancel) {
+					continue // nothing is streaming yet / the consumer has cancelled or crashed
 				}
+				lenient := cancelled // the context is done: the implementation may have stopped dispatching
 				feeds++
 				cancelNow = feeds == c.CancelFeed
+				panicNow = feeds == c.PanicFeed
 				data := fmt.Sprintf("e%d", feeds)
 				before := len(log)
-				body.ch <- wire(op.Type, data)
+				select {
+				case body.ch <- wire(op.Type, data):
+				default:
+					if !lenient {
+						v.Failf("", "op %d: the connection no longer reads its response body although neither it ended nor the context was cancelled", i)
+						return
+					}
+					v.Class("stopped-reading-after-cancellation")
+					continue
+				}
 				synctest.Wait()
+				panicNow = false
+				if panicked {
+					v.Class("callback-panicked")
+					break ops // what the panicking dispatch delivered is not specified; the rest is checked outside the bubble
+				}
 				got := log[before:]
 				want := map[int]bool{}
 				for id, x := range cbs {
@@ -240,7 +287,7 @@ func checkC13(t *testing.T, c C13Case) (v *stats.Verdict) {
 					}
 				}
 				for id := range want {
-					if !seen[id] {
+					if !seen[id] && !lenient {
 						v.Failf("", "op %d: live callback %d (type %q) was NOT invoked for event {type=%q data=%q} (ops %+v, connect at %d)", i, id, cbs[id].typ, op.Type, data, c.Ops[:i+1], c.Connect)
 						return
 					}
@@ -250,6 +297,9 @@ func checkC13(t *testing.T, c C13Case) (v *stats.Verdict) {
 				}
 				if cancelNow && cancelled {
 					v.Class("context-cancelled-inside-a-dispatch")
+				}
+				if lenient {
+					v.Class("event-fed-after-the-cancellation")
 				}
 				cancelNow = false
 			}
@@ -265,8 +315,30 @@ func checkC13(t *testing.T, c C13Case) (v *stats.Verdict) {
 			v.Failf("", "Connect did not return after the stream ended")
 			return
 		}
+		if panicked {
+			afterPanic = func() {
+				// the connection is over; its registry must still work
+				conn.SubscribeToAll(func(sse.Event) {})()
+				conn.SubscribeEvent("a", func(sse.Event) {})()
+				for _, rm := range removers {
+					rm()
+				}
+			}
+		}
 		v.NonTrivial = twoOnOneType && unsubThenEvent && opAfterConnect && feeds > 0
 	})
+	if afterPanic != nil && v.Fail == "" {
+		// A call that blocks on a mutex left locked by the panicking dispatch is invisible to the
+		// bubble (mutexes do not block durably), so this runs outside it, under a generous
+		// wall-clock watchdog: the calls take microseconds.
+		ok := make(chan struct{})
+		go func() { afterPanic(); close(ok) }()
+		select {
+		case <-ok:
+		case <-time.After(30 * time.Second):
+			v.Failf("hang-after-callback-panic", "after a callback panicked during a dispatch (recovered by the caller of Connect), a Subscribe* call or an unsubscribe function did not return within 30s (ops %+v, panic at feed %d)", c.Ops, c.PanicFeed)
+		}
+	}
 	return v
 }
 
